@@ -35,7 +35,9 @@ CFG = dict(
          "envelope}, so that Descriptor.Fields()/log/metric labels run on attacker-chosen values; operators 101..107 registered with non-RSA / garbage / empty keys "
          "(ECDSA and Ed25519 PKIX PEM, bad DER, CERTIFICATE block, non-PEM, empty, non-base64) and envelopes naming them through validateSSVMessage, "
          "validateP2PMessage and the wrapper; msg-id handler: real handler + Start loop + GC with a 150 ms ttl, oracle on its map through a shim (expired entries gone, "
-         "live ones kept, bounded by one ttl period of traffic); resource stratum: ONE validator receives a stream (120 quick / 3000 thorough) of messages for ids the "
+         "live ones kept, bounded by one ttl period of traffic); metric series: 320 (thorough 4000) refused messages for a served validator with distinct rounds (incl. 2^40+i), unknown QBFT / SSV "
+         "message type values and signer counts through the real wrapper, oracle = series counts of the real reporter's vectors (shim) grow by a constant only; "
+         "resource stratum: ONE validator receives a stream (120 quick / 3000 thorough) of messages for ids the "
          "node does not serve — distinct well-formed unregistered BLS keys x 7 roles with the right domain, liquidated / metadata-less / exited validators, foreign "
          "domain, invalid roles, malformed keys, every 8th through the pubsub entry point — and, on EVERY call of every case, an oracle on the validator's internals "
          "(shim: sizes of validationLocks and of the consensus-state index before/after): a call for an unserved id leaves no per-id state "
